@@ -50,9 +50,13 @@ func runC08(rc *RunCtx) {
 	}
 	rc.Phase = "collect"
 	port := 8000
-	for i := 0; i < nConn; i++ {
-		key := keys[G.Draw(len(keys))]
-		port++
+	// A third of the runs open the recorded connections concurrently (and more of
+	// them): the salts of overlapping responses must be fresh all the same.
+	concurrent := G.Draw(3) == 0
+	if concurrent && nConn < 20 {
+		nConn = 20 + G.Draw(21)
+	}
+	collect := func(i int, key *Key, port int) {
 		down := payload(G, 1+G.Draw(300))
 		startTarget(w, tgtIP, port, func(tc *targetConn) {
 			tc.C.Write(down)
@@ -81,13 +85,38 @@ func runC08(rc *RunCtx) {
 		out := append([]byte(nil), cc.Peer().Wrote...)
 		S := key.EK.SaltSize()
 		if (string(buf[:n]) != string(down) || len(out) < S) && freshRefusalExcused(rc, key, cc.Wrote) {
-			continue
+			return
 		}
 		if string(buf[:n]) != string(down) || len(out) < S {
 			rc.Failf("collect-failed", "connection %d under %s did not relay the target's %d bytes (got %d, server wrote %d raw bytes)", i, key, len(down), n, len(out))
-			continue
+			return
 		}
 		recs = append(recs, &rec{key: key, out: out, salt: string(out[:S])})
+	}
+	if concurrent {
+		simrt.Probe("concurrent_recorded_connections")
+		dn := make([]flag, nConn)
+		for i := 0; i < nConn; i++ {
+			i := i
+			key := keys[G.Draw(len(keys))]
+			port++
+			p := port
+			j := jitter(G)
+			simrt.GoNamed(fmt.Sprintf("c08-conn-%d", i), func() {
+				j()
+				collect(i, key, p)
+				dn[i].Set()
+			})
+		}
+		for i := range dn {
+			dn[i].Wait()
+		}
+	} else {
+		for i := 0; i < nConn; i++ {
+			key := keys[G.Draw(len(keys))]
+			port++
+			collect(i, key, port)
+		}
 	}
 	// (i) freshness within the run
 	seen := map[string]int{}
